@@ -19,48 +19,52 @@
 (***************************************************************************)
 EXTENDS Naturals, Sequences, FiniteSets, TLC, Json
 
-CONSTANTS LevelsMenu,     \* set of level sequences
+CONSTANTS TimeMenu,       \* set of <<max_time, cost of one pass>> in abstract ticks
+          LevelsMenu,     \* set of level sequences
           FactLimits, IterLimits,   \* sets of naturals
           CallSeqs,       \* set of sequences of call names
           ExportOn
 
-VARIABLES sc,        \* the scenario: [levels, mf, mi, calls]
+VARIABLES sc,        \* the scenario: [levels, mf, mi, mt, cost, calls]
+          elapsed,   \* abstract clock: ticks consumed by the passes performed so far
           pos,       \* index into levels reached so far (1 = initial facts)
           iters,     \* cumulative number of growing passes performed
           status,    \* "idle" | "running" | "exhausted"
           ncall,     \* calls completed
           results    \* outcome of each completed call: "ok" | "limit"
 
-vars == <<sc, pos, iters, status, ncall, results>>
+vars == <<sc, pos, iters, status, ncall, results, elapsed>>
 
 Facts == sc.levels[pos]
 AtFixpoint == pos = Len(sc.levels)
 
 Init ==
-    /\ sc \in {[levels |-> l, mf |-> f, mi |-> i, calls |-> c] :
-                 l \in LevelsMenu, f \in FactLimits, i \in IterLimits, c \in CallSeqs}
+    /\ sc \in {[levels |-> l, mf |-> f, mi |-> i, mt |-> t[1], cost |-> t[2], calls |-> c] :
+                 l \in LevelsMenu, f \in FactLimits, i \in IterLimits, c \in CallSeqs, t \in TimeMenu}
+    /\ elapsed = 0
     /\ pos = 1 /\ iters = 0 /\ status = "idle" /\ ncall = 0 /\ results = <<>>
 
 \* a call starts (or resumes) the evaluation
 StartCall ==
     /\ status = "idle" /\ ncall < Len(sc.calls)
     /\ status' = "running"
-    /\ UNCHANGED <<sc, pos, iters, ncall, results>>
+    /\ UNCHANGED <<sc, pos, iters, ncall, results, elapsed>>
 
-\* budgets are tested before any unit of work
-OverBudget == Facts > sc.mf \/ (~AtFixpoint /\ iters >= sc.mi)
+\* budgets are tested before any unit of work; the time budget is used up once the passes
+\* performed so far have consumed max_time (each pass of a slow program costs `cost` ticks)
+OverBudget == Facts > sc.mf \/ (~AtFixpoint /\ iters >= sc.mi) \/ (~AtFixpoint /\ elapsed >= sc.mt)
 
 \* one growing pass of the fixpoint computation
 Pass ==
     /\ status = "running" /\ ~AtFixpoint /\ ~OverBudget
-    /\ pos' = pos + 1 /\ iters' = iters + 1
+    /\ pos' = pos + 1 /\ iters' = iters + 1 /\ elapsed' = elapsed + sc.cost
     /\ UNCHANGED <<sc, status, ncall, results>>
 
 Finish(outcome, st) ==
     /\ results' = Append(results, outcome)
     /\ ncall' = ncall + 1
     /\ status' = st
-    /\ UNCHANGED <<sc, pos, iters>>
+    /\ UNCHANGED <<sc, pos, iters, elapsed>>
 
 \* the call returns Ok: fixpoint reached within the budgets
 ReturnOk ==
@@ -71,7 +75,7 @@ ReturnOk ==
 \* At the exact boundary the implementation may report exhaustion one step early.
 ReturnLimit ==
     /\ status = "running"
-    /\ OverBudget \/ Facts >= sc.mf \/ (iters >= sc.mi /\ iters > 0)
+    /\ OverBudget \/ Facts >= sc.mf \/ (iters >= sc.mi /\ iters > 0) \/ elapsed >= sc.mt
     /\ Finish("limit", "exhausted")
 
 \* every call on an exhausted authorizer fails at once, without evaluating anything
@@ -107,6 +111,8 @@ Export ==
 \* ---- constants for cfg files
 \* chain programs: L growing passes of +1 fact from n0 initial facts; wide: one pass adding k*k facts
 LevelsSmall == {<<3>>, <<7>>, <<4, 5>>, <<5, 6, 7>>, <<6, 7, 8, 9>>, <<3, 12>>, <<6, 7, 8, 9, 10, 11>>}
+\* fast programs under a generous clock, and slow programs (one pass outlasts max_time)
+Times == {<<1000, 0>>, <<1, 2>>}
 FactLims == {0, 3, 5, 7, 9, 12, 1000}
 IterLims == {0, 1, 2, 3, 5, 1000}
 Calls1 == {<<"authorize">>, <<"run">>, <<"query">>}
